@@ -318,8 +318,9 @@ pub proof fn lemma_real_iso_is_lit(s: Seq<u8>)
 }
 /// `starts_with(b"/")` says the first byte is a SOLIDUS
 pub proof fn lemma_starts_slash(w: Seq<u8>)
-    ensures (w.len() >= 1 && w.subrange(0, 1) == K_SLASH()) <==> (w.len() > 0 && w[0] == 47)
+    ensures (w.len() >= 1 && w.subrange(0, 1) == K_SLASH()) <==> (w.len() > 0 && w[0] == 47), K_SLASH().len() == 1
 {
+    reveal(K_SLASH);
     if w.len() >= 1 {
         if w.subrange(0, 1) == K_SLASH() { assert(w.subrange(0, 1)[0] == 47); }
         if w[0] == 47 { assert(w.subrange(0, 1) =~= K_SLASH()); }
@@ -774,28 +775,30 @@ pub open spec fn ctx_decrypt(c: Option<CtxV>, s: Seq<u8>) -> Option<Seq<u8>> {
 pub struct Env { pub buf: Seq<u8>, pub base: int, pub ctx: Option<CtxV> }
 
 // keywords and delimiters
-pub open spec fn K_LTLT() -> Seq<u8> { seq![60u8, 60u8] }
-pub open spec fn K_GTGT() -> Seq<u8> { seq![62u8, 62u8] }
-pub open spec fn K_LBRACK() -> Seq<u8> { seq![91u8] }
-pub open spec fn K_RBRACK() -> Seq<u8> { seq![93u8] }
-pub open spec fn K_LPAREN() -> Seq<u8> { seq![40u8] }
-pub open spec fn K_LT() -> Seq<u8> { seq![60u8] }
-pub open spec fn K_SLASH() -> Seq<u8> { seq![47u8] }
-pub open spec fn K_R() -> Seq<u8> { seq![82u8] }
-pub open spec fn K_TRUE() -> Seq<u8> { seq![116u8, 114u8, 117u8, 101u8] }
-pub open spec fn K_FALSE() -> Seq<u8> { seq![102u8, 97u8, 108u8, 115u8, 101u8] }
-pub open spec fn K_NULL() -> Seq<u8> { seq![110u8, 117u8, 108u8, 108u8] }
-pub open spec fn K_STREAM() -> Seq<u8> { seq![115u8, 116u8, 114u8, 101u8, 97u8, 109u8] }
-pub open spec fn K_ENDSTREAM() -> Seq<u8> { seq![101u8, 110u8, 100u8, 115u8, 116u8, 114u8, 101u8, 97u8, 109u8] }
-pub open spec fn K_OBJ() -> Seq<u8> { seq![111u8, 98u8, 106u8] }
-pub open spec fn K_ENDOBJ() -> Seq<u8> { seq![101u8, 110u8, 100u8, 111u8, 98u8, 106u8] }
-pub open spec fn K_LENGTH() -> Seq<u8> { seq![76u8, 101u8, 110u8, 103u8, 116u8, 104u8] }
+#[verifier::opaque] pub open spec fn K_LTLT() -> Seq<u8> { seq![60u8, 60u8] }
+#[verifier::opaque] pub open spec fn K_GTGT() -> Seq<u8> { seq![62u8, 62u8] }
+#[verifier::opaque] pub open spec fn K_LBRACK() -> Seq<u8> { seq![91u8] }
+#[verifier::opaque] pub open spec fn K_RBRACK() -> Seq<u8> { seq![93u8] }
+#[verifier::opaque] pub open spec fn K_LPAREN() -> Seq<u8> { seq![40u8] }
+#[verifier::opaque] pub open spec fn K_LT() -> Seq<u8> { seq![60u8] }
+#[verifier::opaque] pub open spec fn K_SLASH() -> Seq<u8> { seq![47u8] }
+#[verifier::opaque] pub open spec fn K_R() -> Seq<u8> { seq![82u8] }
+#[verifier::opaque] pub open spec fn K_TRUE() -> Seq<u8> { seq![116u8, 114u8, 117u8, 101u8] }
+#[verifier::opaque] pub open spec fn K_FALSE() -> Seq<u8> { seq![102u8, 97u8, 108u8, 115u8, 101u8] }
+#[verifier::opaque] pub open spec fn K_NULL() -> Seq<u8> { seq![110u8, 117u8, 108u8, 108u8] }
+#[verifier::opaque] pub open spec fn K_STREAM() -> Seq<u8> { seq![115u8, 116u8, 114u8, 101u8, 97u8, 109u8] }
+#[verifier::opaque] pub open spec fn K_ENDSTREAM() -> Seq<u8> { seq![101u8, 110u8, 100u8, 115u8, 116u8, 114u8, 101u8, 97u8, 109u8] }
+#[verifier::opaque] pub open spec fn K_OBJ() -> Seq<u8> { seq![111u8, 98u8, 106u8] }
+#[verifier::opaque] pub open spec fn K_ENDOBJ() -> Seq<u8> { seq![101u8, 110u8, 100u8, 111u8, 98u8, 106u8] }
+#[verifier::opaque] pub open spec fn K_LENGTH() -> Seq<u8> { seq![76u8, 101u8, 110u8, 103u8, 116u8, 104u8] }
 pub proof fn lemma_lits()
     ensures ascii("<<"@) == K_LTLT(), ascii(">>"@) == K_GTGT(), ascii("["@) == K_LBRACK(), ascii("]"@) == K_RBRACK(),
         ascii("("@) == K_LPAREN(), ascii("<"@) == K_LT(), ascii("/"@) == K_SLASH(), ascii("R"@) == K_R(),
         ascii("true"@) == K_TRUE(), ascii("false"@) == K_FALSE(), ascii("null"@) == K_NULL(), ascii("stream"@) == K_STREAM(),
         ascii("endstream"@) == K_ENDSTREAM(), ascii("obj"@) == K_OBJ(), ascii("endobj"@) == K_ENDOBJ(), ascii("Length"@) == K_LENGTH(),
 {
+    reveal(K_LTLT); reveal(K_GTGT); reveal(K_LBRACK); reveal(K_RBRACK); reveal(K_LPAREN); reveal(K_LT); reveal(K_SLASH); reveal(K_R);
+    reveal(K_TRUE); reveal(K_FALSE); reveal(K_NULL); reveal(K_STREAM); reveal(K_ENDSTREAM); reveal(K_OBJ); reveal(K_ENDOBJ); reveal(K_LENGTH);
     reveal_strlit("<<"); reveal_strlit(">>"); reveal_strlit("["); reveal_strlit("]"); reveal_strlit("("); reveal_strlit("<");
     reveal_strlit("/"); reveal_strlit("R"); reveal_strlit("true"); reveal_strlit("false"); reveal_strlit("null");
     reveal_strlit("stream"); reveal_strlit("endstream"); reveal_strlit("obj"); reveal_strlit("endobj"); reveal_strlit("Length");
@@ -806,7 +809,16 @@ pub proof fn lemma_lits()
     assert(ascii("endobj"@) =~= K_ENDOBJ()); assert(ascii("Length"@) =~= K_LENGTH());
 }
 
+/// first bytes of the delimiters and keywords that open an object (none of them can start a number)
+pub proof fn lemma_kw_first()
+    ensures K_LBRACK().len() == 1 && K_LBRACK()[0] == 91, K_LPAREN().len() == 1 && K_LPAREN()[0] == 40, K_LT().len() == 1 && K_LT()[0] == 60,
+        K_TRUE().len() == 4 && K_TRUE()[0] == 116, K_FALSE().len() == 5 && K_FALSE()[0] == 102, K_NULL().len() == 4 && K_NULL()[0] == 110,
+        K_SLASH().len() == 1 && K_SLASH()[0] == 47,
+{
+    reveal(K_LBRACK); reveal(K_LPAREN); reveal(K_LT); reveal(K_TRUE); reveal(K_FALSE); reveal(K_NULL); reveal(K_SLASH);
+}
 // 7.3.5 names: "#" followed by two hexadecimal digits stands for the byte with that code
+#[verifier::opaque]
 pub open spec fn name_dec(s: Seq<u8>) -> Option<Seq<u8>> decreases s.len() {
     if s.len() == 0 { Some(Seq::<u8>::empty()) }
     else if s[0] == 35 {
@@ -827,6 +839,7 @@ pub proof fn lemma_name_dec_prefix(s: Seq<u8>, k: int)
     ensures name_dec(s) == opt_prepend(s.subrange(0, k), name_dec(s.subrange(k, s.len() as int)))
     decreases k
 {
+    reveal_with_fuel(name_dec, 2);
     if k == 0 {
         assert(s.subrange(0, s.len() as int) =~= s);
         match name_dec(s) { Some(t) => { assert(s.subrange(0, 0) + t =~= t); }, None => {} }
@@ -845,6 +858,7 @@ pub proof fn lemma_name_dec_escape(s: Seq<u8>, k: int)
         ==> name_dec(s) == opt_prepend(s.subrange(0, k).push((hexval(s[k + 1]).unwrap() * 16 + hexval(s[k + 2]).unwrap()) as u8), name_dec(s.subrange(k + 3, s.len() as int)))
 {
     if 0 <= k && k + 3 <= s.len() && (forall|i: int| 0 <= i < k ==> s[i] != 35) && s[k] == 35 && hexval(s[k + 1]) is Some && hexval(s[k + 2]) is Some {
+        reveal_with_fuel(name_dec, 2);
         lemma_name_dec_prefix(s, k);
         let u = s.subrange(k, s.len() as int);
         assert(u.subrange(3, u.len() as int) =~= s.subrange(k + 3, s.len() as int));
@@ -858,6 +872,7 @@ pub proof fn lemma_name_dec_plain(s: Seq<u8>)
     ensures (forall|i: int| 0 <= i < s.len() ==> s[i] != 35) ==> name_dec(s) == Some(s)
 {
     if forall|i: int| 0 <= i < s.len() ==> s[i] != 35 {
+        reveal_with_fuel(name_dec, 2);
         lemma_name_dec_prefix(s, s.len() as int);
         assert(s.subrange(0, s.len() as int) =~= s);
         assert(s.subrange(s.len() as int, s.len() as int) =~= Seq::<u8>::empty());
@@ -870,21 +885,36 @@ pub open spec fn key_dec(s: Seq<u8>) -> Option<Seq<u8>> {
 }
 
 // 7.3.4.2 literal strings: the value is the sequence of lexemes up to the closing parenthesis
-pub open spec fn lit_str(b: Seq<u8>, pos: int, nested: int) -> Option<(Seq<u8>, int)> decreases b.len() - pos {
+// (`*_def` is the defining equation; the function itself is opaque and unfolded through `lemma_*_unfold` where needed)
+#[verifier::opaque]
+pub open spec fn lit_str(b: Seq<u8>, pos: int, nested: int) -> Option<(Seq<u8>, int)> decreases b.len() - pos, 1nat {
+    lit_str_def(b, pos, nested)
+}
+pub open spec fn lit_str_def(b: Seq<u8>, pos: int, nested: int) -> Option<(Seq<u8>, int)> decreases b.len() - pos, 0nat {
     let st = lit_step(b, pos, nested);
     if st.eof || st.trunc || !depth_fits(st.nested) || st.pos <= pos || st.pos > b.len() { None }
     else { match st.out {
         None => Some((Seq::<u8>::empty(), st.pos)),
-        Some(c) => match lit_str(b, st.pos, st.nested) { None => None, Some(x) => Some((seq![c] + x.0, x.1)) } } }
+        Some(c) => str_prepend(seq![c], lit_str(b, st.pos, st.nested)) } }
 }
+pub proof fn lemma_lit_unfold(b: Seq<u8>, pos: int, nested: int)
+    ensures lit_str(b, pos, nested) == lit_str_def(b, pos, nested)
+{ reveal_with_fuel(lit_str, 1); }
 // 7.3.4.3 hexadecimal strings
-pub open spec fn hex_str(b: Seq<u8>, pos: int) -> Option<(Seq<u8>, int)> decreases b.len() - pos {
+#[verifier::opaque]
+pub open spec fn hex_str(b: Seq<u8>, pos: int) -> Option<(Seq<u8>, int)> decreases b.len() - pos, 1nat {
+    hex_str_def(b, pos)
+}
+pub open spec fn hex_str_def(b: Seq<u8>, pos: int) -> Option<(Seq<u8>, int)> decreases b.len() - pos, 0nat {
     let st = hex_step(b, pos);
     if st.eof || st.bad || st.pos <= pos || st.pos > b.len() { None }
     else { match st.out {
         None => Some((Seq::<u8>::empty(), st.pos)),
-        Some(c) => match hex_str(b, st.pos) { None => None, Some(x) => Some((seq![c] + x.0, x.1)) } } }
+        Some(c) => str_prepend(seq![c], hex_str(b, st.pos)) } }
 }
+pub proof fn lemma_hex_unfold(b: Seq<u8>, pos: int)
+    ensures hex_str(b, pos) == hex_str_def(b, pos)
+{ reveal_with_fuel(hex_str, 1); }
 pub open spec fn str_prepend(a: Seq<u8>, r: Option<(Seq<u8>, int)>) -> Option<(Seq<u8>, int)> {
     match r { Some(x) => Some((a + x.0, x.1)), None => None }
 }
@@ -903,6 +933,7 @@ pub open spec fn stream_length<R: Resolve>(r: &R, m: Map<Seq<u8>, Val>) -> Optio
     }
 }
 /// 7.3.8.1: keyword `stream`, LF or CRLF, exactly /Length bytes, keyword `endstream`; q = just after the dictionary's `>>`
+#[verifier::opaque]
 pub open spec fn stream_at<R: Resolve>(r: &R, e: Env, m: Map<Seq<u8>, Val>, q: int) -> Option<(Val, int)> {
     match e.ctx { None => None, Some(c) =>       // "All streams shall be indirect objects": the id comes from the context
     match stream_kw_pos(e.buf, q) { None => None, Some(k) =>
@@ -915,7 +946,14 @@ pub open spec fn stream_at<R: Resolve>(r: &R, e: Env, m: Map<Seq<u8>, Val>, q: i
 
 /// the object at p (after white-space and comments), nesting budget d: Some((value, position just past its last token));
 /// None = not an object in the sense of 7.3 / outside the implementation limits (nothing demanded)
+#[verifier::opaque]
 pub open spec fn obj_at<R: Resolve>(r: &R, e: Env, p: int, d: nat) -> Option<(Val, int)>
+    decreases d, e.buf.len() - p, 1nat
+{ obj_def(r, e, p, d) }
+pub proof fn lemma_obj_unfold<R: Resolve>(r: &R, e: Env, p: int, d: nat)
+    ensures obj_at(r, e, p, d) == obj_def(r, e, p, d)
+{ reveal_with_fuel(obj_at, 1); }
+pub open spec fn obj_def<R: Resolve>(r: &R, e: Env, p: int, d: nat) -> Option<(Val, int)>
     decreases d, e.buf.len() - p, 0nat
 {
     match tok(e.buf, p) { None => None, Some(t1) => {
@@ -959,18 +997,32 @@ pub open spec fn ref_tail(buf: Seq<u8>, p: int) -> Option<(int, int, int)> {
             if buf.subrange(t3.0, t3.1) == K_R() { Some((t2.0, t2.1, t3.1)) } else { None } } } }
 }
 /// 7.3.6: the elements of an array up to `]`; p = just after `[` or after an element
+#[verifier::opaque]
 pub open spec fn arr_at<R: Resolve>(r: &R, e: Env, p: int, d: nat) -> Option<(Seq<Val>, int)>
-    decreases d, e.buf.len() - p, 1nat
+    decreases d, e.buf.len() - p, 3nat
+{ arr_def(r, e, p, d) }
+pub proof fn lemma_arr_unfold<R: Resolve>(r: &R, e: Env, p: int, d: nat)
+    ensures arr_at(r, e, p, d) == arr_def(r, e, p, d)
+{ reveal_with_fuel(arr_at, 1); }
+pub open spec fn arr_def<R: Resolve>(r: &R, e: Env, p: int, d: nat) -> Option<(Seq<Val>, int)>
+    decreases d, e.buf.len() - p, 2nat
 {
     match tok(e.buf, p) { None => None, Some(t1) =>
         if e.buf.subrange(t1.0, t1.1) == K_RBRACK() { Some((Seq::<Val>::empty(), t1.1)) } else {
         match obj_at(r, e, p, d) { None => None, Some(x) =>
             if !(p < x.1 <= e.buf.len()) { None } else {
-            match arr_at(r, e, x.1, d) { None => None, Some(y) => Some((seq![x.0] + y.0, y.1)) } } } } }
+            arr_prepend(seq![x.0], arr_at(r, e, x.1, d)) } } } }
 }
 /// 7.3.7: key/value pairs up to `>>`; a later duplicate key replaces the earlier value; acc = the entries read so far
+#[verifier::opaque]
 pub open spec fn dict_at<R: Resolve>(r: &R, e: Env, p: int, d: nat, acc: Map<Seq<u8>, Val>) -> Option<(Map<Seq<u8>, Val>, int)>
-    decreases d, e.buf.len() - p, 1nat
+    decreases d, e.buf.len() - p, 3nat
+{ dict_def(r, e, p, d, acc) }
+pub proof fn lemma_dict_unfold<R: Resolve>(r: &R, e: Env, p: int, d: nat, acc: Map<Seq<u8>, Val>)
+    ensures dict_at(r, e, p, d, acc) == dict_def(r, e, p, d, acc)
+{ reveal_with_fuel(dict_at, 1); }
+pub open spec fn dict_def<R: Resolve>(r: &R, e: Env, p: int, d: nat, acc: Map<Seq<u8>, Val>) -> Option<(Map<Seq<u8>, Val>, int)>
+    decreases d, e.buf.len() - p, 2nat
 {
     match tok(e.buf, p) { None => None, Some(t1) => {
         let w = e.buf.subrange(t1.0, t1.1);
